@@ -62,9 +62,35 @@ func (x *Exec) unfoldBnd(s *State, a, o, n, i *Term) {
 }
 
 // dir: 0 both, -1 backward chain only, +1 forward chain only
+type equivRule struct {
+	cond, o, n *Term
+	rhs        func(i *Term) *Term
+}
+
+// regEquiv records an introduction rule "cond => forall i. bnd(b,o,n,i) == rhs(i)" so that ground instances can be
+// added at every later ground mention bnd(b,o,n,i) (the quantified form alone depends on the solver's matching,
+// which fails when b is an ite-term)
+func (x *Exec) regEquiv(cond, b, o, n *Term, rhs func(i *Term) *Term) {
+	if x.equivRules == nil {
+		x.equivRules = map[*Term][]equivRule{}
+	}
+	if len(x.equivRules[b]) < 4 {
+		x.equivRules[b] = append(x.equivRules[b], equivRule{cond, o, n, rhs})
+	}
+}
+
 func (x *Exec) unfoldBndD(s *State, a, o, n, i *Term, depth int, dir int) {
 	if x.bndMentions == nil {
 		x.bndMentions = map[*Term][]*Term{}
+	}
+	if dir == 0 && !i.hasBound && !x.inEquivInst {
+		for _, r := range x.equivRules[a] {
+			if r.o == o && r.n == n {
+				x.inEquivInst = true
+				s.assume(Implies(r.cond, Eq(bndT(a, o, n, i), r.rhs(i))))
+				x.inEquivInst = false
+			}
+		}
 	}
 	if depth >= 1 && dir == 0 || true {
 		dup := false
@@ -220,6 +246,9 @@ func (x *Exec) wfAppendRule(s *State, a, o, n, b, o2 *Term, vals []*Term) {
 		return Or(And(Cmp("<=", i, n), bndT(a, o, n, i)), Eq(i, m))
 	}))
 	s.assume(Implies(cond, concl))
+	x.regEquiv(cond, b, o2, m, func(i *Term) *Term {
+		return Or(And(Cmp("<=", i, n), bndT(a, o, n, i)), Eq(i, m))
+	})
 	x.eng.usedWf = true
 }
 
@@ -233,6 +262,9 @@ func (x *Exec) wfConcatRule(s *State, a, o, n, c, oc, nc, b, o2 *Term) {
 		return Or(And(Cmp("<=", i, n), bndT(a, o, n, i)), And(Cmp(">=", i, n), bndT(c, oc, nc, Arith("-", i, n))))
 	}))
 	s.assume(Implies(cond, concl))
+	x.regEquiv(cond, b, o2, m, func(i *Term) *Term {
+		return Or(And(Cmp("<=", i, n), bndT(a, o, n, i)), And(Cmp(">=", i, n), bndT(c, oc, nc, Arith("-", i, n))))
+	})
 	x.eng.usedWf = true
 }
 
@@ -251,6 +283,9 @@ func (x *Exec) wfConcatSuffixRule(s *State, a, o, n, c, oc, nc, lo, cnt, b, o2 *
 		return Or(And(Cmp("<=", i, n), bndT(a, o, n, i)), And(Cmp(">=", i, n), bndT(c, oc, nc, Arith("+", lo, Arith("-", i, n)))))
 	}))
 	s.assume(Implies(cond, concl))
+	x.regEquiv(cond, b, o2, m, func(i *Term) *Term {
+		return Or(And(Cmp("<=", i, n), bndT(a, o, n, i)), And(Cmp(">=", i, n), bndT(c, oc, nc, Arith("+", lo, Arith("-", i, n)))))
+	})
 	x.eng.usedWf = true
 }
 
